@@ -685,6 +685,12 @@ class GroupCoordinator(BaseCoordinator):
                     exc = task.exception()
                     if exc:
                         await self._push_error_to_user(exc)
+                        if task is self._heartbeat_task:
+                            # The error was reported once. Heartbeating has to
+                            # go on: it keeps the member in the group, or tells
+                            # it (UNKNOWN_MEMBER_ID) that it has to rejoin.
+                            self._heartbeat_task = None
+                            self._start_heartbeat_task()
 
         # Closing finallization
         if assignment is not None:
